@@ -367,6 +367,8 @@ pub fn run(ctx: &mut Ctx) {
         let cfg = Cfg { now: "2020-06-15T12:00:00+00:00".into(), offset: "+00:00".into(), targets };
         judge_doc(ctx, sp, &sp.mk, &attrs, &cfg, want, "random-doc", " ");
     }
+    // ---- Decision events in full documents
+    super::decision_stage(ctx, "C06", 62, if quick { 200_000 } else { 4_000_000 }, 0.95);
     // ---- the binary with no target option (shard 0 only: a few hundred process runs)
     if shard == 0 {
         cli_leg(ctx);
